@@ -64,10 +64,12 @@ Lost(e)   == (Before(e) \ After(e)) \cup Range(e.probe)
 StepHarness(m, e) == [m EXCEPT !.own = Forget(m, Before(e) \ After(e))]
 
 \* constructor / connect / accept / handshake; e.ok = 1 iff it returned an object
+\* (an object that connects again - a second websocket handshake on the same
+\* stream - may release what it owns while doing so)
 StepCtor(m, e) ==
-  IF Lost(e) # {} THEN Fail(m, "C13/foreign-close/" \o e.kind)
+  IF ~(Lost(e) \subseteq Owned(m, e.obj)) THEN Fail(m, "C13/foreign-close/" \o e.kind)
   ELSE IF e.ok = 0 /\ New(e) # {} THEN Fail(m, "C13/leak/" \o e.kind \o ":" \o e.fail)
-  ELSE [m EXCEPT !.own = @ \cup {<<f, e.obj>> : f \in (IF e.ok = 1 THEN New(e) ELSE {})}]
+  ELSE [m EXCEPT !.own = Forget(m, Lost(e)) \cup {<<f, e.obj>> : f \in (IF e.ok = 1 THEN New(e) ELSE {})}]
 
 \* a harness descriptor handed to a sonic object (net.Conn wrapped by an adapter)
 StepAdopt(m, e) == [m EXCEPT !.own = @ \cup {<<f, e.obj>> : f \in Range(e.hnew)}]
